@@ -10,26 +10,6 @@ PROPERTY = "C01"
 LEVEL = "exploration"
 
 
-def source_form_equations(modname: str) -> list[tuple[str, Any]]:
-    """the documented members in source (unevaluated) form, as the documentation obtains them"""
-    import importlib
-    from symplyphysics.docs.parse import find_members_and_functions  # type: ignore
-    from symplyphysics.docs.patch import patch_sympy_evaluate  # type: ignore
-    import ast, os
-    mod = importlib.import_module(modname)
-    path = mod.__file__
-    assert path
-    with open(path, encoding="utf-8") as f:
-        src = f.read()
-    tree = ast.parse(src)
-    out = []
-    try:
-        res = find_members_and_functions(tree)
-    except Exception:
-        return out
-    return out
-
-
 def _work(modname: str) -> dict:
     res: dict[str, Any] = {"n": 0, "keys": [], "outcomes": {}, "violations": [], "undecided": [],
         "samples": [], "states": 0, "transitions": 0}
@@ -58,6 +38,41 @@ def _work(modname: str) -> dict:
             res["undecided"].append((key, msg))
         elif not res["samples"] and nodes > 8:
             res["samples"].append({"equation": key, "nodes": nodes})
+    # the same members in source form (as written in the module, before sympy's automatic
+    # evaluation can cancel or merge terms), obtained the way the documentation obtains them
+    try:
+        from .. import printspace
+        import sympy as sp
+        with time_limit(120):
+            members = printspace.source_members(modname)
+    except CaseTimeout:
+        members = []
+        res["undecided"].append((modname + ":source", "timeout"))
+    except Exception as ex:
+        members = []
+        res["undecided"].append((modname + ":source", f"source form not loadable: {type(ex).__name__}"))
+    for attr, value in members:
+        vals = value if isinstance(value, (list, tuple)) else [value]
+        for i, v in enumerate(vals):
+            if not catalogue.is_equation(v):
+                continue
+            key = f"{modname}.{attr}" + (f"[{i}]" if len(vals) > 1 else "") + ":source"
+            res["n"] += 1
+            res["keys"].append(key)
+            try:
+                with time_limit(30):
+                    verdict, msg, nodes, edges = eqdims.check_equation(v)
+            except CaseTimeout:
+                res["undecided"].append((key, "timeout"))
+                continue
+            res["states"] += nodes
+            res["transitions"] += edges
+            res["outcomes"]["source-" + verdict] = res["outcomes"].get("source-" + verdict, 0) + 1
+            if verdict == "inhomogeneous":
+                res["violations"].append((key, msg, {"module": modname, "attr": attr, "source": True,
+                    "index": i}))
+            elif verdict == "undecided":
+                res["undecided"].append((key, msg))
     return res
 
 
@@ -74,7 +89,8 @@ def main(run: Run) -> int:
     run.note(modules=len(mods), nodes_visited=nodes, edges_visited=edges)
     return run.finish(
         rule="one case per public equation attribute (Eq / relational / boolean combination / "
-        "list element) of every module and package under laws/, definitions/, conditions/; every "
+        "list element) of every module and package under laws/, definitions/, conditions/, plus "
+        "every documented equation once more in its source (unevaluated) form; every "
         "node of the equation tree is assigned an exponent vector; all cases distinct and "
         "non-trivial",
         exhaustive=True,
@@ -84,6 +100,14 @@ def main(run: Run) -> int:
 
 
 def replay(case: dict) -> list[str]:
+    if case.get("source"):
+        from .. import printspace
+        members = dict(printspace.source_members(case["module"]))
+        v = members.get(case["attr"])
+        vals = v if isinstance(v, (list, tuple)) else [v]
+        verdict, msg, _, _ = eqdims.check_equation(vals[case.get("index", 0)])
+        return [f"{case['module']}.{case['attr']} (source form): {msg}"] if verdict == \
+            "inhomogeneous" else []
     mod = catalogue.load(case["module"])
     for attr, eq in catalogue.equations(mod):
         if attr == case["attr"]:
